@@ -43,7 +43,7 @@ def run(ctx, gc=False):
     # design level: the ideal history satisfies C07(ii) and C08 (action properties); transition cover emitted
     scripts = ctx.tlc_gen("MC_Mvcc", GEN.format(maxn=1, maxe=1, maxv=3, vals='{"v1"}', maxh=5 if q else 7, view="VIEW View",
                                                 emit="ACTION_CONSTRAINT Emit", inv="", prop="PROPERTY HistoryStable GcKeeps"),
-                          "cover", workers=1, timeout=3000)
+                          "cover", workers=1, timeout=3000, coverage=True)
     walks = ctx.tlc_gen("MC_Mvcc", GEN.format(maxn=2, maxe=1, maxv=5, vals='{"v1", "v2"}', maxh=24, view="", emit="",
                                               inv="SimEmit", prop=""), "walks", simulate=(600 if q else 8000, 25), workers=4)
     if gc:
